@@ -1151,7 +1151,7 @@ func (sc *scenario) violJoin(j *joinRec, done map[string]bool, key, what string)
 		}
 	}
 	sc.run.Violation(key, what, sc.replay(map[string]any{
-		"join": map[string]any{"joiner": j.conn.id, "group": j.group, "send_tick": j.sendTick, "done_tick": j.doneTick, "epoch": j.epoch},
+		"join":                 map[string]any{"joiner": j.conn.id, "group": j.group, "send_tick": j.sendTick, "done_tick": j.doneTick, "epoch": j.epoch},
 		"chathistory_received": hist, "broadcast_chats_sent_in_group": sent, "clearchats_in_group": clears}))
 }
 
